@@ -16,7 +16,7 @@ META = {
         "specification kind, ndim, nvdim, dtype, how the value was handed over, number of "
         "subregions, overlapping, named dims); non-trivial = at least 2 cells."
     ),
-    "cases": {"quick": 1500, "thorough": 30000},
+    "cases": {"quick": 1500, "thorough": 120000},
     "workers": {"quick": 8, "thorough": 16},
     "timeout": {"quick": 600, "thorough": 5400},
     "deciding": [
